@@ -2,10 +2,13 @@
 # prints the prompt given to a seeding sub-agent for property <id>: only the property text and its worktree.
 import json,sys
 pid=sys.argv[1]
+root=sys.argv[2] if len(sys.argv)>2 else '/tmp/seed'
+focus=sys.argv[3] if len(sys.argv)>3 else ''
 for l in open('/verif/properties.jsonl'):
     p=json.loads(l)
     if p['id']==pid: break
-print(f"""You are helping evaluate a verification effort for the Go project aukilabs/hagall (a WebSocket real-time relay server: sessions, participants, entities, entity components, plug-in modules). You have your own scratch git worktree of the repository at /tmp/seed/{pid} (work ONLY there; never touch /repo or /verif; do not read anything under /verif).
+focusline = f"For this round, make the change in {focus} (one of the files the property is anchored in), whichever function there you find most promising.\n\n" if focus else ""
+print(f"""You are helping evaluate a verification effort for the Go project aukilabs/hagall (a WebSocket real-time relay server: sessions, participants, entities, entity components, plug-in modules). You have your own scratch git worktree of the repository at {root}/{pid} (work ONLY there; never touch /repo or /verif; do not read anything under /verif).
 
 Here is a semantic property the code base is supposed to satisfy:
 
@@ -14,16 +17,16 @@ Here is a semantic property the code base is supposed to satisfy:
   Quantified over: {p['quantifier']['text']}
   Code the property is anchored in: {', '.join(p['anchors']['files'])}
 
-Your task: produce ONE realistic change to the non-test Go sources in /tmp/seed/{pid} (the kind of regression a developer could plausibly introduce in a refactor, optimisation or feature tweak) that BREAKS this property, while
-  (a) the repository still compiles (cd /tmp/seed/{pid} && go build ./... ), and
-  (b) the existing test suite still passes: cd /tmp/seed/{pid} && GOFLAGS=-mod=readonly GOPROXY=off go test -vet=off -count=1 ./...   (one test, TestHandlerHandleSignedLatency, is known to be flaky; ignore it), and
+{focusline}Your task: produce ONE realistic change to the non-test Go sources in {root}/{pid} (the kind of regression a developer could plausibly introduce in a refactor, optimisation or feature tweak) that BREAKS this property, while
+  (a) the repository still compiles (cd {root}/{pid} && go build ./... ), and
+  (b) the existing test suite still passes: cd {root}/{pid} && GOFLAGS=-mod=readonly GOPROXY=off go test -vet=off -count=1 ./...   (one test, TestHandlerHandleSignedLatency, is known to be flaky; ignore it), and
   (c) the breakage needs something specific to manifest - a particular multi-step sequence of operations, an unusual input or boundary value, a particular interleaving, a fault at a particular point, or two cooperating sites that each look fine alone - NOT something ordinary use or the obvious happy path would expose at once. Prefer subtle (e.g. an off-by-one at a boundary, a missing cleanup on one of several paths, a check moved after a mutation, state keyed by the wrong id, a comparison changed in a corner case) over blatant. Do not modify existing tests. Keep the diff small (ideally < 30 changed lines).
 
-Also write a demonstration: a NEW Go test file (name it zz_seed_demo_test.go, in whichever package is most convenient, e.g. in-package tests in websocket/ can drive the unexported handler directly, see websocket/handler_test.go and websocket/testing.go for how existing tests drive the server) containing a test named TestSeedDemo that FAILS with your change applied and PASSES on the unmodified code. Verify both directions yourself (use `git stash` or `git diff > patch; git checkout` etc. inside /tmp/seed/{pid}).
+Also write a demonstration: a NEW Go test file (name it zz_seed_demo_test.go, in whichever package is most convenient, e.g. in-package tests in websocket/ can drive the unexported handler directly, see websocket/handler_test.go and websocket/testing.go for how existing tests drive the server) containing a test named TestSeedDemo that FAILS with your change applied and PASSES on the unmodified code. Verify both directions yourself (use `git diff > _out/patch.diff; git checkout -- .; git apply _out/patch.diff` etc. inside {root}/{pid}; do NOT use `git stash`: the stash is shared between worktrees and other people are working in theirs).
 
 The sandbox has no network: use GOFLAGS=-mod=readonly GOPROXY=off for go commands, and do not try to download anything.
 
-When done, leave in /tmp/seed/{pid}/_out/ exactly these files:
+When done, leave in {root}/{pid}/_out/ exactly these files:
   patch.diff   - `git diff` of the non-test source change only (must apply with `git apply` on the pristine tree)
   zz_seed_demo_test.go - the demonstration test, plus a file demo_path.txt with its repo-relative destination path (e.g. websocket/zz_seed_demo_test.go)
   meta.json    - {{"property": "{pid}", "summary": "<what was changed>", "needs": "<what is needed for the breakage to manifest>", "demo_cmd": "<go test command that runs the demo>", "checked": "<what you ran and observed>"}}
